@@ -1,6 +1,7 @@
 import ClusterVerif.Spec.C10
 import ClusterVerif.Model.C10Source
 import ClusterVerif.Gen.C10
+import ClusterVerif.Gen.C10Sem
 import ClusterVerif.Lemmas.C04
 import ClusterVerif.Lemmas.C10
 import ClusterVerif.Lemmas.C10Dist
@@ -1270,5 +1271,120 @@ theorem short_xor_two_closest :
     hA ≠ hB ∧ isClosestShortXor twoPeers 1 [2] hC = true ∧ isClosestShortXor twoPeers 2 [1] hC = true := by decide
 
 end ByteLevel
+
+/-! ## Semantic tie (round 8b): `getTrustedPeers`, `distances`, `isClosest`, the two callers — go/ast → `Gen/C10Sem.lean`,
+interpreted by `Model/C10Sem.lean`. The candidate set of the closest-peer test is a function of the agreed peerset only. -/
+section SemanticTie
+open CV.C10.Sem
+
+theorem gen_sem_getTrustedPeers : GenSem.getTrustedPeers = Sem.Expected.getTrustedPeers := rfl
+theorem gen_sem_distances : GenSem.distances = Sem.Expected.distances := rfl
+theorem gen_sem_isClosest : GenSem.isClosest = Sem.Expected.isClosest := rfl
+theorem gen_sem_alertSite : GenSem.alertSite = Sem.Expected.alertSite := rfl
+theorem gen_sem_syncSite : GenSem.syncSite = Sem.Expected.syncSite := rfl
+theorem gen_sem_xor : GenSem.xor = Sem.Expected.xor := rfl
+/-- `distances()` reads nothing of the receiver but the agreed peerset (through `getTrustedPeers`) and the own id -/
+theorem gen_sem_distances_reads_agreed_only : GenSem.distances.reads = Sem.Expected.agreedReads := rfl
+
+/-- the translated `getTrustedPeers`, interpreted, is `others` of the model — for every world, member, excluded peer, local view -/
+theorem sem_filter_eq_others (w : World) (l : Local) (self : Nat) (ex : Option Nat) :
+    filterCands GenSem.getTrustedPeers w l self ex = some (others w self ex) := by
+  rw [gen_sem_getTrustedPeers]
+  simp only [filterCands, Sem.Expected.getTrustedPeers, allKnown, List.all_cons, List.all_nil, List.isEmpty_nil, Bool.and_self,
+    beq_self_eq_true, if_true, others]
+  congr 1
+  apply List.filter_congr
+  intro p _
+  simp only [evalSkip, evalAtom, Option.getD_some, Bool.or_false, Bool.not_or, bne, Bool.and_assoc]
+
+/-- the checker `distances(exclude)` builds at `self`: own id and `others` -/
+theorem sem_checker_eq_others (w : World) (l : Local) (self : Nat) (ex : Option Nat) :
+    checkerOf GenSem.distances GenSem.getTrustedPeers w l self ex = some (self, others w self ex) := by
+  have h := sem_filter_eq_others w l self ex
+  rw [gen_sem_distances]
+  simp only [checkerOf, Sem.Expected.distances, candsOf, evalArg, Option.bind_some, h, Option.map_some, beq_self_eq_true,
+    List.isEmpty_nil, Bool.and_self, if_true]
+
+/-- **the candidate set is a function of the agreed peerset only**: whatever two members' private views (`Local`: the peers
+their own monitors hold valid pings for) are, the translated `distances()` hands the same list to the checker -/
+theorem sem_candidates_agreed_only (w : World) (l l' : Local) (self : Nat) (ex : Option Nat) :
+    checkerOf GenSem.distances GenSem.getTrustedPeers w l self ex = checkerOf GenSem.distances GenSem.getTrustedPeers w l' self ex := by
+  rw [sem_checker_eq_others, sem_checker_eq_others]
+
+theorem closestLoop_expected (hc hl : Nat) (hs : List Nat) :
+    closestLoop Sem.Expected.isClosest hc hl (hc ^^^ hl) hs = some (hs.all (fun h => !decide (hl ^^^ hc > h ^^^ hc))) := by
+  induction hs with
+  | nil => rfl
+  | cons h t ih =>
+    simp only [closestLoop, Sem.Expected.isClosest, opndVal, xor2, cmpHolds, List.all_cons]
+    by_cases hgt : hc ^^^ hl > h ^^^ hc
+    · have : hl ^^^ hc > h ^^^ hc := by rw [Nat.xor_comm hl hc]; exact hgt
+      simp [hgt, this]
+    · have : ¬ hl ^^^ hc > h ^^^ hc := by rw [Nat.xor_comm hl hc]; exact hgt
+      simp only [hgt, this, decide_false, Bool.not_false, Bool.true_and]
+      exact ih
+
+/-- the translated `isClosest`, interpreted over the hash values: no candidate strictly closer -/
+theorem sem_closest_eq_model (hc hl : Nat) (hs : List Nat) :
+    closestOf GenSem.isClosest hc hl hs = some (hs.all (fun h => !decide (hl ^^^ hc > h ^^^ hc))) := by
+  rw [gen_sem_isClosest]
+  have := closestLoop_expected hc hl hs
+  simp only [closestOf, Sem.Expected.isClosest, opndVal, xor2, List.isEmpty_nil, Bool.and_self, if_true] at this ⊢
+  exact this
+
+/-- **the whole decision as translated = `isClosest` of the model**, for every agreed world, every private view, every member,
+excluded peer and cid: the round theorems speak about what the translated code decides -/
+theorem sem_decision_eq_isClosest (w : World) (l : Local) (self : Nat) (ex : Option Nat) (c : Nat) :
+    Sem.decide? GenSem.distances GenSem.getTrustedPeers GenSem.isClosest w l self ex c = some (isClosest w self ex c) := by
+  simp only [Sem.decide?, sem_checker_eq_others, sem_closest_eq_model, isClosest, List.all_map]
+  rfl
+
+/-- two members of an agreed round (same world, ANY private views) with distinct hashes are never both closest — the
+statement of `closest_at_most_one` about the translated code -/
+theorem sem_at_most_one_decides (w : World) (la lb : Local) (ex : Option Nat) (c a b : Nat)
+    (ha : a ∈ w.members.map (·.1)) (hb : b ∈ w.members.map (·.1))
+    (hea : some a ≠ ex) (heb : some b ≠ ex) (hta : a ∉ w.untrusted) (htb : b ∉ w.untrusted)
+    (hdist : w.peerHash a = w.peerHash b → a = b)
+    (hca : Sem.decide? GenSem.distances GenSem.getTrustedPeers GenSem.isClosest w la a ex c = some true)
+    (hcb : Sem.decide? GenSem.distances GenSem.getTrustedPeers GenSem.isClosest w lb b ex c = some true) : a = b := by
+  rw [sem_decision_eq_isClosest] at hca hcb
+  exact closest_at_most_one w ex c a b ha hb hea heb hta htb hdist (Option.some.inj hca) (Option.some.inj hcb)
+
+/-- a 3-member world: hashes 1, 2, 4; every cid hashes to 0, so member 1 is closest -/
+def semW : World := { members := [(1, 1), (2, 2), (3, 4)], cidHash := [(7, 0)], untrusted := [] }
+
+example : Sem.decide? GenSem.distances GenSem.getTrustedPeers GenSem.isClosest semW ⟨[3]⟩ 1 none 7 = some true := by decide
+example : Sem.decide? GenSem.distances GenSem.getTrustedPeers GenSem.isClosest semW ⟨[3]⟩ 2 none 7 = some false := by decide
+
+/-- refutation (shape of seeded change C10g): when `distances()` keeps only the trusted peers its LOCAL monitor holds a valid
+ping for, the candidate set is NOT a function of the agreed peerset: same world, two private views, two lists -/
+theorem sem_local_ping_filter_not_agreed_only :
+    ¬ (∀ (w : World) (l l' : Local) (self : Nat) (ex : Option Nat),
+        checkerOf Sem.Expected.localPingCtor Sem.Expected.getTrustedPeers w l self ex
+          = checkerOf Sem.Expected.localPingCtor Sem.Expected.getTrustedPeers w l' self ex) := by
+  intro h
+  have := h semW ⟨[1, 3]⟩ ⟨[3]⟩ 2 none
+  revert this
+  decide
+
+/-- … and then two members that agree on the peerset are both closest to the same cid (member 2 holds no valid ping of
+member 1): the "exactly one peer acts" rule no longer follows from agreement -/
+theorem sem_local_ping_filter_two_closest :
+    Sem.decide? Sem.Expected.localPingCtor Sem.Expected.getTrustedPeers Sem.Expected.isClosest semW ⟨[2, 3]⟩ 1 none 7 = some true ∧
+    Sem.decide? Sem.Expected.localPingCtor Sem.Expected.getTrustedPeers Sem.Expected.isClosest semW ⟨[3]⟩ 2 none 7 = some true ∧
+    (1 : Nat) ≠ 2 ∧ semW.peerHash 1 ≠ semW.peerHash 2 := by decide
+
+/-- refutations for the guard of `getTrustedPeers`: without the `p == exclude` atom the failed peer is a candidate (and, being
+closest, makes everybody else answer "not me"); without `notTrusted` an untrusted member is -/
+theorem sem_filter_without_exclude_keeps_failed :
+    filterCands { Sem.Expected.getTrustedPeers with skip := [.eqSelf, .notTrusted] } semW ⟨[]⟩ 2 (some 1) = some [1, 3] ∧
+    filterCands Sem.Expected.getTrustedPeers semW ⟨[]⟩ 2 (some 1) = some [3] := by decide
+
+/-- an unrecognised shape is refused, not guessed -/
+theorem sem_unknown_shape_refused (s : String) (w : World) (l : Local) (self : Nat) (ex : Option Nat) (c : Nat) :
+    Sem.decide? { Sem.Expected.distances with others := .other s } Sem.Expected.getTrustedPeers Sem.Expected.isClosest w l self ex c = none := by
+  simp [Sem.decide?, checkerOf, candsOf, Sem.Expected.distances]
+
+end SemanticTie
 
 end CV.C10
